@@ -123,8 +123,6 @@ pub open spec fn d6_class(s: Seq<u8>, t: UriElement) -> bool { !is_query(t) && !
             decreases result@.len(),
 //@ end
 
-/// Latin-1: every byte is the code point of the same number
-pub open spec fn latin1(b: Seq<u8>) -> Seq<char> { Seq::new(b.len(), |i: int| b[i] as char) }
 
 //@ fn canonical.rs latin1_to_string
 //@ props C08 C19 C05
@@ -137,8 +135,6 @@ pub open spec fn latin1(b: Seq<u8>) -> Seq<char> { Seq::new(b.len(), |i: int| b[
         proof { assert(result@ =~= latin1(bytes@.subrange(0, it.index + 1))); }
 //@ end
 
-/// a normalised element is well-escaped: every '%' is followed by two hex digits
-pub open spec fn well_escaped(s: Seq<u8>) -> bool { decode_from(s, 0, false) is Some }
 
 //@ fn canonical.rs unescape_uri_encoding
 //@ props C08 C02 C19
